@@ -3,12 +3,12 @@ import vlib
 import seqxrun
 
 PROP = "C01"
-BOUNDS = {"quick": dict(nodes=5, depth=3, calls=5, scoped_root=0), "thorough": dict(nodes=6, depth=3, calls=6, scoped_root=1)}
+BOUNDS = {"quick": dict(nodes=5, depth=3, calls=5, scoped_root=0, mut=4), "thorough": dict(nodes=6, depth=3, calls=6, scoped_root=1, mut=5)}
 NSH = 16
 
 
 def arglists(b):
-    return [["--nodes", b["nodes"], "--depth", b["depth"], "--calls", b["calls"], "--scoped-root", b["scoped_root"],
+    return [["--nodes", b["nodes"], "--depth", b["depth"], "--calls", b["calls"], "--scoped-root", b["scoped_root"], "--mut-nodes", b["mut"],
              "--shard", i, "--nshards", NSH] for i in range(NSH)]
 
 
@@ -22,7 +22,9 @@ def run(tier, flavour_build=None):
         PROP, tier, "model_checking", tot, t,
         rule="all forests of handlers (13 leaf kinds incl. null entry, shared counting handler, empty-text formatter, generic handlers; "
              "scoped/unscoped nested pipelines) with <= N nodes and depth <= 3, each evaluated on a 2-message sequence by the real Pipeline and "
-             "by a recursive reference interpreter; plus all SimplePipeline fluent call sequences <= K; states = evaluation states "
+             "by a recursive reference interpreter; plus all SimplePipeline fluent call sequences <= K; plus LIVE trees changed between messages: for every forest with <= M nodes "
+             "and every node x of it: the tree without x processes a message, x is appended to its pipeline (x last child), two more messages; the tree processes a message, x is removed "
+             "from its pipeline / x (a pipeline) is cleared, two more messages - every message must be evaluated in order on the tree as it is at that moment; states = evaluation states "
              "(tree x message sequence), transitions = messages processed / calls applied; distinct_nontrivial = distinct sink observation logs (sampled 1/1024)",
         assumptions=["a formatter returning a null QString is outside the alphabet (ambiguous)",
                      "handlers keep no reference to the message beyond the call"],
